@@ -2,7 +2,7 @@
 \* force limit {2, 5} at every step (the full environment is MCController_thorough.cfg)
 SPECIFICATION CSpec
 CONSTANTS
-  Variant = "fixed"
+  Variant = "catchup"
   E = 0
   VPerO = 1
   MaxZ = 4
